@@ -4,4 +4,6 @@ import SwcVerif.Props.C17
 #print axioms C17.step_inv
 #print axioms C17.spanning
 #print axioms C17.branching_limit
-#print axioms C17.prim_step_partial
+#print axioms C17.prim_step
+#print axioms C17.prim_minimal
+#print axioms C17.prim_attains
